@@ -65,9 +65,15 @@ class BaseValidator(object):
 
     def __exit__(self, exc_type, exc_val, exc_tb):
         """
-        Simply call :py:meth:`~.close()`.
+        Simply call :py:meth:`~.close()`. In case the ``with`` block already
+        ends with an error, this error prevails over a possible
+        :py:exc:`cutplace.errors.CheckError` from the checks at the end.
         """
-        self.close()
+        try:
+            self.close()
+        except errors.CheckError:
+            if exc_type is None:
+                raise
 
     @property
     def cid(self):
